@@ -22,6 +22,7 @@ necessary to account for:
     may also differ.
 """
 
+import copy
 from math import pi
 
 from tangelo.toolboxes.operators import QubitOperator
@@ -97,6 +98,8 @@ def translate_c_to_cirq(source_circuit, noise_model=None, save_measurements=Fals
             num_controls = len(gate.control)
             control_list = [qubit_list[c] for c in gate.control]
             if gate.name == 'CNOT' and num_controls > 1:
+                # Rename a copy: the gates of the source circuit must not be modified
+                gate = copy.copy(gate)
                 gate.name = 'CX'
         if gate.name in {"H", "X", "Y", "Z", "S", "SDAG", "T"}:
             target_circuit.append(GATE_CIRQ[gate.name](qubit_list[gate.target[0]]))
